@@ -39,6 +39,16 @@ type c16Case struct {
 	Mut  *c16Mut    `json:"mut,omitempty"`
 	Full bool       `json:"full,omitempty"` // copy into a destination that is too small (must fail)
 	Big  *c16Big    `json:"big,omitempty"`  // mode bigcopy: the streaming path for files above 64 MiB
+	Excl []c16Excl  `json:"excl,omitempty"` // compare: entries with an excluded name (ignored by CompareFS wherever they are)
+}
+
+// c16Excl is an entry named like one of the documented excluded names, as a file or as a directory with a file
+// inside, present on one side or on both. It never changes the verdict.
+type c16Excl struct {
+	Dir   string `json:"dir"` // "" = root
+	Name  string `json:"name"`
+	IsDir bool   `json:"isdir,omitempty"`
+	In    string `json:"in"` // both | a | b
 }
 
 func genC16(t *rapid.T) any {
@@ -81,7 +91,7 @@ func genC16(t *rapid.T) any {
 				files = append(files, e.Path)
 			}
 		}
-		kinds := []string{"extra"}
+		kinds := []string{"extra", "extra"}
 		if len(all) > 0 {
 			kinds = append(kinds, "missing", "kind")
 		}
@@ -95,10 +105,73 @@ func genC16(t *rapid.T) any {
 			m.Pos = rapid.SampledFrom([]int{0, 1, 32767, 32768, 32769, 65535, 65536, -1, -2}).Draw(t, "mutPos")
 		case "missing", "kind":
 			m.Path = rapid.SampledFrom(all).Draw(t, "mutPath")
+		case "extra":
+			// the extra entry goes into a generated directory (or the root) under a name that sorts before or
+			// after everything else there
+			dirs := []string{""}
+			for _, e := range c.Tree {
+				if e.Kind == mk.KDir {
+					dirs = append(dirs, e.Path)
+				}
+			}
+			m.Path = rapid.SampledFrom(dirs).Draw(t, "extraDir")
+			m.Pos = rapid.IntRange(0, 1).Draw(t, "extraLast")
 		}
 		c.Mut = m
 	}
+	if c.Mode == "compare" && rapid.IntRange(0, 1).Draw(t, "withExcluded") == 0 {
+		dirs := []string{""}
+		for _, e := range c.Tree {
+			if e.Kind == mk.KDir {
+				dirs = append(dirs, e.Path)
+			}
+		}
+		if c.Mut != nil && c.Mut.K == "extra" {
+			dirs = []string{c.Mut.Path, c.Mut.Path, ""} // mostly next to the extra entry
+		}
+		for i := 0; i < rapid.IntRange(1, 2).Draw(t, "nExcluded"); i++ {
+			c.Excl = append(c.Excl, c16Excl{Dir: rapid.SampledFrom(dirs).Draw(t, "exclDir"), Name: rapid.SampledFrom([]string{".DS_Store", "lost+found", "System Volume Information"}).Draw(t, "exclName"),
+				IsDir: rapid.Bool().Draw(t, "exclIsDir"), In: rapid.SampledFrom([]string{"both", "a", "b", "b"}).Draw(t, "exclIn")})
+		}
+	}
 	return c
+}
+
+// c16ExclEntries are the tree entries an excluded-name item adds to side "a" or "b".
+func c16ExclEntries(xs []c16Excl, side string, have []mk.Entry) []mk.Entry {
+	taken := map[string]bool{}
+	for _, e := range have {
+		taken[strings.ToLower(e.Path)] = true
+	}
+	isDir := map[string]bool{"": true}
+	for _, e := range have {
+		if e.Kind == mk.KDir {
+			isDir[e.Path] = true
+		}
+	}
+	var out []mk.Entry
+	for i, x := range xs {
+		if x.In != "both" && x.In != side {
+			continue
+		}
+		if !isDir[x.Dir] {
+			continue // the mutation removed (or replaced) the directory on this side
+		}
+		p := x.Name
+		if x.Dir != "" {
+			p = x.Dir + "/" + x.Name
+		}
+		if taken[strings.ToLower(p)] {
+			continue
+		}
+		taken[strings.ToLower(p)] = true
+		if x.IsDir {
+			out = append(out, mk.Entry{Path: p, Kind: mk.KDir}, mk.Entry{Path: p + "/INNER.TXT", Kind: mk.KFile, Data: mk.Content{Seed: uint32(70 + i), Len: 33}})
+		} else {
+			out = append(out, mk.Entry{Path: p, Kind: mk.KFile, Data: mk.Content{Seed: uint32(80 + i), Len: 21 + i}})
+		}
+	}
+	return out
 }
 
 // c16FS materialises a tree as a filesystem of the given kind; returns an fs.FS view and, for image kinds, a cleanup.
@@ -169,7 +242,7 @@ func c16FS(kind string, tree []mk.Entry, scratch string) (iofs.FS, error) {
 		return iso9660.Read(d, 16<<20, 0, 2048)
 	case "squashfs":
 		d := dev.New(16 << 20)
-		if err := mk.BuildSquashfs(d, 16<<20, 0, 4096, tree, mk.SqOpts{Comp: "gzip"}); err != nil {
+		if err := mk.BuildSquashfs(d, 16<<20, 0, 4096, tree, mk.SqOpts{Comp: "gzip", Level: 6}); err != nil {
 			return nil, err
 		}
 		return squashfs.Read(d, 16<<20, 0, 4096)
@@ -389,7 +462,14 @@ func execC16(ci any) (r hx.Result) {
 		}
 		switch m.K {
 		case "extra":
-			treeB = append(treeB, mk.Entry{Path: "EXTRA.TXT", Kind: mk.KFile, Data: mk.Content{Seed: 7, Len: 5}})
+			name := "!EXTRA.TXT"
+			if m.Pos == 1 {
+				name = "zz-extra.txt"
+			}
+			if m.Path != "" {
+				name = m.Path + "/" + name
+			}
+			treeB = append(treeB, mk.Entry{Path: name, Kind: mk.KFile, Data: mk.Content{Seed: 7, Len: 5}})
 		case "missing":
 			var nt []mk.Entry
 			for _, e := range treeB {
@@ -422,7 +502,12 @@ func execC16(ci any) (r hx.Result) {
 			// content mutations are applied on materialised bytes below
 		}
 	}
-	a, err := c16FS("mapfs", c.Tree, scratch)
+	treeA := append(append([]mk.Entry(nil), c.Tree...), c16ExclEntries(c.Excl, "a", c.Tree)...)
+	treeB = append(treeB, c16ExclEntries(c.Excl, "b", treeB)...)
+	if len(c.Excl) > 0 {
+		r.Class("excluded-names-present")
+	}
+	a, err := c16FS("mapfs", treeA, scratch)
 	if err != nil {
 		r.Discard = true
 		return
